@@ -34,8 +34,9 @@ type c14Step struct {
 	Decoys   []c14DecoyEv `json:"decoy_events,omitempty"`
 
 	// edit: set file Rel to version Version (0 = original)
-	Rel     string `json:"rel,omitempty"`
-	Version int    `json:"version,omitempty"`
+	Rel       string `json:"rel,omitempty"`
+	Version   int    `json:"version,omitempty"`
+	KeepMtime bool   `json:"keep_mtime,omitempty"`
 
 	// decoy: rewrite decoy file between calls
 	Decoy int         `json:"decoy,omitempty"`
@@ -72,6 +73,7 @@ type c14Hist struct {
 
 type c14Key struct {
 	Key   string // oracle A key
+	KeyD  string // oracle D key: the whole tree relative to the mount (decoys included)
 	Prog  string
 	Mount string
 	Exe   string
@@ -120,11 +122,13 @@ func (h *c14Hist) materialise(env *Env) (*simrt.History, []*c14Key) {
 				p = mount + "/./" + prog
 			}
 			st := simrt.Step{Kind: "transpile", Obj: s.Obj, Path: p, Target: s.Target, MapMode: s.MapMode, MapSeed: s.MapSeed}
+			duringCall := false
 			for _, d := range s.Decoys {
 				if len(h.Decoys) == 0 {
 					continue
 				}
 				st.Events = append(st.Events, &simrt.Event{AtSeq: d.AtSeq, Kind: "write", Path: path.Join(mount, h.Decoys[d.Decoy%len(h.Decoys)]), Data: d.Data})
+				duringCall = true
 			}
 			// oracle A key
 			parts := []string{s.Target, prog}
@@ -135,7 +139,21 @@ func (h *c14Hist) materialise(env *Env) (*simrt.History, []*c14Key) {
 				parts = append(parts, "std/"+sn+"="+sha(env.Std[sn+".tsh"]))
 			}
 			out.Steps = append(out.Steps, st)
-			keys = append(keys, &c14Key{Key: strings.Join(parts, "|"), Prog: prog, Mount: mount, Exe: exe})
+			dparts := []string{s.Target, prog}
+			for _, rel := range sortedKeys(content) {
+				dparts = append(dparts, rel+"="+sha(content[rel]))
+			}
+			kd := sha([]byte(strings.Join(dparts, "|")))
+			if duringCall {
+				// a decoy changes while this call runs: the tree it sees is not one fixed tree
+				kd = ""
+				for _, d := range s.Decoys {
+					if len(h.Decoys) > 0 {
+						content[h.Decoys[d.Decoy%len(h.Decoys)]] = d.Data // (whether or not the event fired, later calls get a fresh key below)
+					}
+				}
+			}
+			keys = append(keys, &c14Key{Key: strings.Join(parts, "|"), KeyD: kd, Prog: prog, Mount: mount, Exe: exe})
 		case "edit":
 			data := []byte(nil)
 			if s.Version == 0 {
@@ -150,12 +168,13 @@ func (h *c14Hist) materialise(env *Env) (*simrt.History, []*c14Key) {
 				continue
 			}
 			content[s.Rel] = data
-			out.Steps = append(out.Steps, simrt.Step{Kind: "write", File: path.Join(mount, s.Rel), Data: data})
+			out.Steps = append(out.Steps, simrt.Step{Kind: "write", File: path.Join(mount, s.Rel), Data: data, KeepMtime: s.KeepMtime})
 			keys = append(keys, nil)
 		case "decoy":
 			if len(h.Decoys) == 0 {
 				continue
 			}
+			content[h.Decoys[s.Decoy%len(h.Decoys)]] = s.Data
 			out.Steps = append(out.Steps, simrt.Step{Kind: "write", File: path.Join(mount, h.Decoys[s.Decoy%len(h.Decoys)]), Data: s.Data})
 			keys = append(keys, nil)
 		case "move":
@@ -260,11 +279,18 @@ func c14GenOdd(r *Run, rng *gen.Rng, corpus []string, oddPool []string) *c14Hist
 		s := string(f.Data)
 		corrupted, _ := gen.Corrupt(rng, f.Data)
 		h.Versions[f.Rel] = []string{s + "\n// edited\n", "\n" + s, string(corrupted)}
+		// a version of exactly the same size (one digit changed): metadata-only change detection cannot see it
+		if i := strings.IndexAny(s, "0123456789"); i >= 0 {
+			b := []byte(s)
+			b[i] = '0' + (b[i]-'0'+1)%10
+			h.Versions[f.Rel] = append(h.Versions[f.Rel], string(b))
+		}
 	}
-	h.Mount0 = rng.Pick([]string{"/sim/m", "/w/my proj", "/srv/a/b"})
+	h.Mount0 = rng.Pick([]string{"/sim/m", "/w/my proj", "/srv/a/b", "/w/proj-1.2/src", "/home/u/.config/t"})
 	h.Exe0 = rng.Pick([]string{"/sim/x", "/opt/tsh/bin"})
-	mounts := []string{"/sim/m", "/w/my proj", "/srv/a/b", "/mnt/other place/p", "/m2"}
-	exes := []string{"/sim/x", "/opt/tsh/bin", "/usr/local/libexec/t"}
+	mounts := []string{"/sim/m", "/w/my proj", "/srv/a/b", "/mnt/other place/p", "/m2", "/w/100% (x)/p", "/w/a+b [1]", "/w/it's/$HOME", "/w/UPPER/lower", "/" + strings.Repeat("deep/", 12) + "p",
+		"/home/u/.dotfiles/scripts", "/w/proj-1.2/src", "/tmp/tmp.AbC123/p", "/w/a.b/c.d/e"}
+	exes := []string{"/sim/x", "/opt/tsh/bin", "/usr/local/libexec/t", "/a/first", "/zz/last", "/opt/tsh-1.2/bin"}
 	// phase 0: canonical execution of every (program, target)
 	obj := 100
 	order := []int{}
@@ -327,9 +353,9 @@ func c14GenOdd(r *Run, rng *gen.Rng, corpus []string, oddPool []string) *c14Hist
 			if edited[rel] != 0 && rng.Chance(60) {
 				edited[rel] = 0
 			} else {
-				edited[rel] = rng.Range(1, 3)
+				edited[rel] = rng.Range(1, 4)
 			}
-			h.Steps = append(h.Steps, c14Step{Kind: "edit", Rel: rel, Version: edited[rel]})
+			h.Steps = append(h.Steps, c14Step{Kind: "edit", Rel: rel, Version: edited[rel], KeepMtime: rng.Chance(40)})
 		case k < 78:
 			if len(h.Decoys) > 0 {
 				h.Steps = append(h.Steps, c14Step{Kind: "decoy", Decoy: rng.Intn(len(h.Decoys)), Data: decoyData()})
@@ -365,6 +391,7 @@ type c14Stats struct {
 	keys        map[string]bool
 	pairs       int
 	pairsB      int
+	pairsD      int
 	coldPairs   int
 	shapes      map[string]bool
 	mapNonCanon int
@@ -431,6 +458,7 @@ func c14Judge(h *c14Hist, conc *simrt.History, keys []*c14Key, res []simrt.CallR
 	}
 	firstA := map[string]int{}
 	firstB := map[string]int{}
+	firstD := map[string]int{}
 	for i := range conc.Steps {
 		if conc.Steps[i].Kind != "transpile" {
 			continue
@@ -488,6 +516,19 @@ func c14Judge(h *c14Hist, conc *simrt.History, keys []*c14Key, res []simrt.CallR
 			}
 		} else if st != nil {
 			st.aDisabled++
+		}
+		if k.KeyD != "" {
+			if j, ok := firstD[k.KeyD]; ok {
+				if st != nil {
+					st.pairsD++
+				}
+				if prev := c14AnswerOf(&res[j]); prev != ans {
+					return "same-tree-different-answer", fmt.Sprintf("program %s target %s: step %d answered %s, step %d answered %s although the whole source tree (relative to its mount point, decoys included) and the std library were byte-identical",
+						k.Prog, conc.Steps[i].Target, j, prev, i, ans) + c14Describe(conc, j, i)
+				}
+			} else {
+				firstD[k.KeyD] = i
+			}
 		}
 		if j, ok := firstB[bkey]; ok {
 			if st != nil {
@@ -775,6 +816,7 @@ func checkC14(r *Run) error {
 		"distinct_keys":          len(st.keys),
 		"cross_checked_pairs_A":  st.pairs,
 		"cross_checked_pairs_B":  st.pairsB,
+		"cross_checked_pairs_D":  st.pairsD,
 		"fresh_process_pairs":    st.coldPairs,
 		"distinct_interleavings": len(st.shapes),
 	}
